@@ -44,6 +44,7 @@ pub trait MatFam<L: Leaf>: 'static {
     fn rm_lines(m: Self::RM) -> <Self::LK as Kind<Self::Line>>::V;
     fn rm_observe(m: &Self::RM, kind: u32);
     fn rm_clone(m: &Self::RM) -> Self::RM;
+    fn rm_clone_from(dst: &mut Self::RM, src: &Self::RM);
     fn rm_map_lines<G: FnMut(Self::Line) -> Self::Line>(m: Self::RM, g: G) -> Self::RM;
     fn rm_map<G: FnMut(L) -> L>(m: Self::RM, g: G) -> Self::RM;
 
@@ -65,8 +66,35 @@ pub trait MatFam<L: Leaf>: 'static {
     fn cm_lines(m: Self::CM) -> <Self::LK as Kind<Self::Line>>::V;
     fn cm_observe(m: &Self::CM, kind: u32);
     fn cm_clone(m: &Self::CM) -> Self::CM;
+    fn cm_clone_from(dst: &mut Self::CM, src: &Self::CM);
     fn cm_map_lines<G: FnMut(Self::Line) -> Self::Line>(m: Self::CM, g: G) -> Self::CM;
     fn cm_map<G: FnMut(L) -> L>(m: Self::CM, g: G) -> Self::CM;
+
+    /// truncating conversions to the smaller matrix types (`Mat3::from(Mat4)`, `Mat2::from(Mat4)`,
+    /// `Mat2::from(Mat3)`; no bound on the element type): how many this size has
+    const SHRINKS: usize;
+    /// -> (the smaller matrix, kept alive; its size k; its ids by (row, column), read through plain field access)
+    fn rm_shrink(m: Self::RM, which: usize) -> (Box<dyn std::any::Any>, usize, Vec<u32>);
+    fn cm_shrink(m: Self::CM, which: usize) -> (Box<dyn std::any::Any>, usize, Vec<u32>);
+}
+
+fn ids_rm<S: MatFam<L>, L: Leaf>(m: &S::RM) -> Vec<u32> {
+    let mut v = Vec::with_capacity(S::N * S::N);
+    for i in 0..S::N {
+        for j in 0..S::N {
+            v.push(S::rm_field(m, i, j).grp().first());
+        }
+    }
+    v
+}
+fn ids_cm<S: MatFam<L>, L: Leaf>(m: &S::CM) -> Vec<u32> {
+    let mut v = Vec::with_capacity(S::N * S::N);
+    for i in 0..S::N {
+        for j in 0..S::N {
+            v.push(S::cm_field(m, i, j).grp().first());
+        }
+    }
+    v
 }
 
 fn observe_any<M: std::fmt::Debug + std::fmt::Display + std::hash::Hash + PartialEq>(m: &M, kind: u32) {
@@ -99,7 +127,7 @@ macro_rules! line_field {
 }
 
 macro_rules! matfam {
-    ($F:ident, $n:expr, $nn:expr, $Mat:ident, $Vec:ident, $LK:ident, [$($f:ident)+], [$($i:tt)+], [$($nm:ident)+]) => {
+    ($F:ident, $n:expr, $nn:expr, $Mat:ident, $Vec:ident, $LK:ident, [$($f:ident)+], [$($i:tt)+], [$($nm:ident)+], [$($S:ident)*]) => {
         pub struct $F;
         impl<L: Leaf> MatFam<L> for $F {
             const N: usize = $n;
@@ -158,6 +186,7 @@ macro_rules! matfam {
             fn rm_lines(m: Self::RM) -> <Self::LK as Kind<Self::Line>>::V { m.rows }
             fn rm_observe(m: &Self::RM, kind: u32) { observe_any(m, kind) }
             fn rm_clone(m: &Self::RM) -> Self::RM { m.clone() }
+            fn rm_clone_from(dst: &mut Self::RM, src: &Self::RM) { dst.clone_from(src) }
             fn rm_map_lines<G: FnMut(Self::Line) -> Self::Line>(m: Self::RM, g: G) -> Self::RM { m.map_rows(g) }
             fn rm_map<G: FnMut(L) -> L>(m: Self::RM, g: G) -> Self::RM { m.map(g) }
 
@@ -193,15 +222,44 @@ macro_rules! matfam {
             fn cm_lines(m: Self::CM) -> <Self::LK as Kind<Self::Line>>::V { m.cols }
             fn cm_observe(m: &Self::CM, kind: u32) { observe_any(m, kind) }
             fn cm_clone(m: &Self::CM) -> Self::CM { m.clone() }
+            fn cm_clone_from(dst: &mut Self::CM, src: &Self::CM) { dst.clone_from(src) }
             fn cm_map_lines<G: FnMut(Self::Line) -> Self::Line>(m: Self::CM, g: G) -> Self::CM { m.map_cols(g) }
             fn cm_map<G: FnMut(L) -> L>(m: Self::CM, g: G) -> Self::CM { m.map(g) }
+
+            const SHRINKS: usize = 0 $(+ { let _ = <$S as MatFam<L>>::N; 1 })*;
+            #[allow(unused_assignments, unused_mut, unused_variables, unreachable_code)]
+            fn rm_shrink(m: Self::RM, which: usize) -> (Box<dyn std::any::Any>, usize, Vec<u32>) {
+                let mut idx = 0usize;
+                $(
+                    if which == idx {
+                        let s = <<$S as MatFam<L>>::RM as From<Self::RM>>::from(m);
+                        let ids = ids_rm::<$S, L>(&s);
+                        return (Box::new(s), <$S as MatFam<L>>::N, ids);
+                    }
+                    idx += 1;
+                )*
+                panic!("harness: no such truncating conversion")
+            }
+            #[allow(unused_assignments, unused_mut, unused_variables, unreachable_code)]
+            fn cm_shrink(m: Self::CM, which: usize) -> (Box<dyn std::any::Any>, usize, Vec<u32>) {
+                let mut idx = 0usize;
+                $(
+                    if which == idx {
+                        let s = <<$S as MatFam<L>>::CM as From<Self::CM>>::from(m);
+                        let ids = ids_cm::<$S, L>(&s);
+                        return (Box::new(s), <$S as MatFam<L>>::N, ids);
+                    }
+                    idx += 1;
+                )*
+                panic!("harness: no such truncating conversion")
+            }
         }
     };
 }
 
-matfam!(Fam2, 2, 4, Mat2, Vec2, KVec2, [x y], [0 1], [m0 m1 m2 m3]);
-matfam!(Fam3, 3, 9, Mat3, Vec3, KVec3, [x y z], [0 1 2], [m0 m1 m2 m3 m4 m5 m6 m7 m8]);
-matfam!(Fam4, 4, 16, Mat4, Vec4, KVec4, [x y z w], [0 1 2 3], [m0 m1 m2 m3 m4 m5 m6 m7 m8 m9 m10 m11 m12 m13 m14 m15]);
+matfam!(Fam2, 2, 4, Mat2, Vec2, KVec2, [x y], [0 1], [m0 m1 m2 m3], []);
+matfam!(Fam3, 3, 9, Mat3, Vec3, KVec3, [x y z], [0 1 2], [m0 m1 m2 m3 m4 m5 m6 m7 m8], [Fam2]);
+matfam!(Fam4, 4, 16, Mat4, Vec4, KVec4, [x y z w], [0 1 2 3], [m0 m1 m2 m3 m4 m5 m6 m7 m8 m9 m10 m11 m12 m13 m14 m15], [Fam3 Fam2]);
 
 pub enum MForm<F: MatFam<L>, L: Leaf> {
     Flat(F::Flat),
@@ -765,6 +823,10 @@ impl<F: MatFam<L>, L: Leaf> MatExec<F, L> {
                     st.fault_cfg[F_SINK] += 1;
                     set_sink_fail(op.b);
                 }
+                if op.b > 0 && kind % 4 == 1 {
+                    st.fault_cfg[F_HASHER] += 1;
+                    tok::set_hash_fail(op.b);
+                }
                 let (r, fired) = guard(0, m(OWN_MAIN), if op.f > 0 { Some((Cb::Observe, op.f)) } else { None }, || match form {
                     MForm::RM(mm) => F::rm_observe(mm, kind),
                     MForm::CM(mm) => F::cm_observe(mm, kind),
@@ -777,14 +839,73 @@ impl<F: MatFam<L>, L: Leaf> MatExec<F, L> {
                 if take_sink_fired() {
                     st.fault_fired[F_SINK] += 1;
                 }
+                let hfired = tok::take_hash_fired();
+                if hfired {
+                    st.fault_fired[F_HASHER] += 1;
+                }
                 match r {
                     Ok(()) => {}
-                    Err(Thrown::Injected) if fired => {}
+                    Err(Thrown::Injected) if fired || hfired => {}
                     Err(Thrown::Injected) => tok::raise(V10_UNEXPECTED_PANIC, "observe on a matrix: stray injected panic (harness)".into()),
                     Err(Thrown::Genuine(msg)) => tok::raise(V10_UNEXPECTED_PANIC, format!("observe on a matrix panicked: {}", msg)),
                 }
                 if !tok::has_violation() {
                     self.check("observe");
+                }
+                true
+            }
+            MShrink => {
+                if F::SHRINKS == 0 || !matches!(self.form, MForm::RM(_) | MForm::CM(_)) {
+                    return false;
+                }
+                st.probes[P_MAT_SHRINK] += 1;
+                let which = op.a as usize % F::SHRINKS;
+                let k = n - 1 - which;
+                // everything outside the top-left k x k block is cut off and must be destroyed by the conversion
+                let mut keep: Vec<u32> = Vec::with_capacity(k * k);
+                let mut cut: Vec<u32> = Vec::new();
+                for i in 0..n {
+                    for j in 0..n {
+                        let id = self.grid[i * n + j];
+                        if i < k && j < k {
+                            keep.push(id);
+                        } else {
+                            tok::set_owner(id, OWN_DOOMED);
+                            cut.push(id);
+                        }
+                    }
+                }
+                let form = std::mem::replace(&mut self.form, MForm::Gone);
+                self.grid.clear();
+                let what = if n == 4 && k == 3 { "Mat3::from(Mat4)" } else if n == 4 { "Mat2::from(Mat4)" } else { "Mat2::from(Mat3)" };
+                let r = guard_nopanic(what, m(OWN_DOOMED), 0, move || match form {
+                    MForm::RM(mm) => F::rm_shrink(mm, which),
+                    MForm::CM(mm) => F::cm_shrink(mm, which),
+                    _ => unreachable!(),
+                });
+                if let Some((small, k2, ids)) = r {
+                    if k2 != k || ids != keep {
+                        tok::raise(V5_ORDER, format!("{}: the result holds ids {:?}, the top-left {}x{} block of the source is {:?}", what, ids, k, k, keep));
+                        std::mem::forget(small);
+                        return true;
+                    }
+                    for id in &cut {
+                        if !tok::gone(*id) {
+                            tok::raise(V7_LEAK, format!("{}: id {} lies outside the top-left block and was not destroyed", what, id));
+                            std::mem::forget(small);
+                            return true;
+                        }
+                    }
+                    for id in &keep {
+                        tok::set_owner(*id, OWN_DOOMED);
+                    }
+                    let _ = guard_nopanic("drop of the truncated matrix", m(OWN_DOOMED), 0, move || drop(small));
+                    for id in &keep {
+                        if !tok::gone(*id) {
+                            tok::raise(V7_LEAK, format!("drop of the matrix {} returned: id {} was not dropped", what, id));
+                            return true;
+                        }
+                    }
                 }
                 true
             }
@@ -795,6 +916,84 @@ impl<F: MatFam<L>, L: Leaf> MatExec<F, L> {
                 st.probes[P_CONTAINER_CLONE] += 1;
                 if op.f > 0 {
                     st.fault_cfg[F_OBSERVE_PANIC] += 1;
+                }
+                if op.a % 2 == 1 {
+                    // w.clone_from(&m): w's old elements destroyed exactly once, w ends up holding one fresh
+                    // clone per element, in place; under a clone-panic w stays a valid container, nothing leaks
+                    st.probes[P_CLONE_FROM] += 1;
+                    let olds: Vec<L> = (0..(n * n) as u32).map(|p| L::mk(900 + p, OWN_DOOMED)).collect();
+                    st.elements_created += (n * n) as u64;
+                    let old_ids: Vec<u32> = olds.iter().map(|t| t.lid()).collect();
+                    let mut w: MForm<F, L> = match &self.form {
+                        MForm::RM(_) => MForm::RM(F::rm_new(F::flat_from_vec(olds))),
+                        _ => MForm::CM(F::cm_new(F::flat_from_vec(olds))),
+                    };
+                    let src = &self.form;
+                    let (r, fired) = {
+                        let w = &mut w;
+                        guard(m(OWN_DOOMED) | m(OWN_FRESH), m(OWN_MAIN), if op.f > 0 { Some((Cb::Observe, op.f)) } else { None }, move || match (w, src) {
+                            (MForm::RM(d), MForm::RM(s)) => F::rm_clone_from(d, s),
+                            (MForm::CM(d), MForm::CM(s)) => F::cm_clone_from(d, s),
+                            _ => unreachable!(),
+                        })
+                    };
+                    let fresh = tok::fresh_in_op();
+                    match r {
+                        Ok(()) => {
+                            let mut ok = true;
+                            for i in 0..n {
+                                for j in 0..n {
+                                    let t = match &w {
+                                        MForm::RM(mm) => F::rm_field(mm, i, j),
+                                        MForm::CM(mm) => F::cm_field(mm, i, j),
+                                        _ => unreachable!(),
+                                    };
+                                    let tid = t.grp().first();
+                                    if !fresh.contains(&tid) || tok::origin_of(tid) != Some(Origin::Clone) || tok::val_of(tid) != tok::val_of(self.grid[i * n + j]) {
+                                        ok = false;
+                                    }
+                                }
+                            }
+                            if !ok {
+                                tok::raise(V5_ORDER, format!("clone_from on a {0}x{0} matrix: the destination does not consist of one fresh clone per element of the source, in place", n));
+                                std::mem::forget(w);
+                                return true;
+                            }
+                            for id in &old_ids {
+                                if !tok::gone(*id) {
+                                    tok::raise(V7_LEAK, format!("clone_from on a matrix: the destination's old element id {} was not destroyed", id));
+                                    std::mem::forget(w);
+                                    return true;
+                                }
+                            }
+                        }
+                        Err(Thrown::Injected) if fired => {
+                            st.fault_fired[F_OBSERVE_PANIC] += 1;
+                            st.probes[P_CLONE_PANIC_FIRED] += 1;
+                        }
+                        Err(Thrown::Injected) => tok::raise(V10_UNEXPECTED_PANIC, "clone_from on a matrix: stray injected panic (harness)".into()),
+                        Err(Thrown::Genuine(msg)) => tok::raise(V10_UNEXPECTED_PANIC, format!("clone_from on a matrix panicked: {}", msg)),
+                    }
+                    if tok::has_violation() {
+                        std::mem::forget(w);
+                        return true;
+                    }
+                    for id in &fresh {
+                        if !tok::gone(*id) {
+                            tok::set_owner(*id, OWN_CLONE);
+                        }
+                    }
+                    let _ = guard_nopanic("drop of the clone_from destination", m(OWN_CLONE) | m(OWN_DOOMED), 0, move || drop(w));
+                    for id in fresh.iter().chain(old_ids.iter()) {
+                        if !tok::gone(*id) {
+                            tok::raise(V7_LEAK, format!("clone_from on a matrix: element id {} was never destroyed", id));
+                            return true;
+                        }
+                    }
+                    if !tok::has_violation() {
+                        self.check("clone_from");
+                    }
+                    return true;
                 }
                 let form = &self.form;
                 let (r, fired) = guard(m(OWN_FRESH), m(OWN_MAIN), if op.f > 0 { Some((Cb::Observe, op.f)) } else { None }, || match form {
